@@ -1,6 +1,7 @@
 import PMV.Proofs.PyCore
 import PMV.Proofs.PyCoreInst
 import PMV.Proofs.PyCoreMono
+import PMV.Proofs.PyCoreImports
 /-
   C01 — With the default options a minified program behaves like the original.
   `Spec.PyCore` gives a first-order core of Python (ints, bools, strings, None; assignment, `if`,
@@ -14,7 +15,8 @@ import PMV.Proofs.PyCoreMono
   unchanged; under `python -O` semantics (`runO`) remove_asserts and remove_debug leave it unchanged;
   constant folding (for any oracle) and positional-only conversion *refine* it: unless the
   original run leaves the core (`stuck`), the transformed module behaves identically.
-  Partial: renaming, hoisting, import combining and annotation removal are decided by the
+  combine_imports leaves it unchanged too, the observable including the sequence of import events.
+  Partial: renaming, hoisting and annotation removal are decided by the
   differential-execution oracle on the real code and by the per-transform theorems of
   C02–C06/C09/C10, not by a PyCore theorem.
 -/
@@ -68,6 +70,15 @@ theorem remove_debug_preserves_under_O (n : Nat) (m : Module) : runO n (travModu
   runO_trav (dropT canRemoveDebug) (dropT_sound canRemoveDebug canRemoveDebug_noop)
     (dropT_table (o := true) canRemoveDebug canRemoveDebug_noop) n m
 
+/-- T01.12: combine_imports leaves the observable unchanged, where the observable now includes the sequence of import
+    events (which module, bound to which name, in which order): merged statements import the same modules in the
+    same order and bind the same names.  Holds under both semantics. -/
+theorem combine_imports_preserves (n : Nat) (m : Module) : run n (travModule combineImports m) = run n m :=
+  run_trav combineImports combineImports_sound combineImports_table n m
+
+theorem combine_imports_preserves_under_O (n : Nat) (m : Module) : runO n (travModule combineImports m) = runO n m :=
+  runO_trav combineImports combineImports_sound combineImports_table n m
+
 /-- T01.9: fuel only bounds loop iterations and call depth: a run that ends within fuel `n` (anything but `timeout`)
     is the same at every larger fuel — "for every fuel" above speaks about the program, not about the bound. -/
 theorem more_fuel_same_behaviour (n k : Nat) (m : Module) (h : (run n m).ending ≠ "timeout") :
@@ -76,26 +87,32 @@ theorem more_fuel_same_behaviour (n k : Nat) (m : Module) (h : (run n m).ending 
 
 /-- the switches whose transform is not covered by a PyCore theorem are off -/
 def CoreOnly (o : Opts) : Prop :=
-  o.combineImports = false ∧ o.annotations.any = false ∧ o.removeAsserts = false ∧ o.removeDebug = false
+  o.annotations.any = false ∧ o.removeAsserts = false ∧ o.removeDebug = false
 
-/-- T01.6: the modelled transform pipeline, restricted to the seven transforms covered above (any subset of
+/-- T01.6: the modelled transform pipeline, restricted to the eight transforms covered above (any subset of
     them, in pipeline order), refines the observable behaviour of every module that stays inside the core. -/
 theorem pipeline_partial (t : Printer.PrecTable) (sp : Token.Spacing) (orc : Fold.Oracle) (el : List String)
     (o : Opts) (ho : CoreOnly o) (n : Nat) (m : Module) (hcore : (run n m).ending ≠ "stuck") :
     run n (transformM t sp orc el o m) = run n m := by
-  obtain ⟨h1, h2, h3, h4⟩ := ho
+  obtain ⟨h2, h3, h4⟩ := ho
   let m1 := if o.removeLiteralStatements then removeLiteralStatements m else m
   have e1 : run n m1 = run n m := by
     show run n (if o.removeLiteralStatements then removeLiteralStatements m else m) = run n m
     split
     · exact remove_literals_preserves n m
     · rfl
-  let m2 := if o.removePass then travModule removePass m1 else m1
-  have e2 : run n m2 = run n m := by
-    show run n (if o.removePass then travModule removePass m1 else m1) = run n m
+  let m1c := if o.combineImports then travModule combineImports m1 else m1
+  have e1c : run n m1c = run n m := by
+    show run n (if o.combineImports then travModule combineImports m1 else m1) = run n m
     split
-    · rw [remove_pass_preserves, e1]
+    · rw [combine_imports_preserves, e1]
     · exact e1
+  let m2 := if o.removePass then travModule removePass m1c else m1c
+  have e2 : run n m2 = run n m := by
+    show run n (if o.removePass then travModule removePass m1c else m1c) = run n m
+    split
+    · rw [remove_pass_preserves, e1c]
+    · exact e1c
   let m3 := if o.removeObjectBase then travModule removeObject m2 else m2
   have e3 : run n m3 = run n m := by
     show run n (if o.removeObjectBase then travModule removeObject m2 else m2) = run n m
@@ -125,14 +142,14 @@ theorem pipeline_partial (t : Printer.PrecTable) (sp : Token.Spacing) (orc : Fol
     · rw [convert_posargs_preserves n m6 (by rw [e6]; exact hcore), e6]
     · exact e6
   have hT : transformM t sp orc el o m = (if o.convertPosargs then removePosargs m6 else m6) := by
-    simp only [transformM, h1, h2, h3, h4, Bool.false_eq_true, if_false, m6, m5, m4, m3, m2, m1]
+    simp only [transformM, h2, h3, h4, Bool.false_eq_true, if_false, m6, m5, m4, m3, m2, m1c, m1]
   rw [hT]
   exact e7
 
-/-- T01.11: under `python -O` semantics the *whole* modelled transform pipeline except import combining and annotation
-    removal — nine transforms, now including remove_asserts and remove_debug — refines the observable behaviour. -/
+/-- T01.11: under `python -O` semantics the *whole* modelled transform pipeline except annotation
+    removal — ten transforms, including remove_asserts, remove_debug and combine_imports — refines the observable behaviour. -/
 theorem pipeline_partial_under_O (t : Printer.PrecTable) (sp : Token.Spacing) (orc : Fold.Oracle) (el : List String)
-    (o : Opts) (h1 : o.combineImports = false) (h2 : o.annotations.any = false) (n : Nat) (m : Module)
+    (o : Opts) (h2 : o.annotations.any = false) (n : Nat) (m : Module)
     (hcore : (runO n m).ending ≠ "stuck") :
     runO n (transformM t sp orc el o m) = runO n m := by
   let m1 := if o.removeLiteralStatements then removeLiteralStatements m else m
@@ -144,13 +161,19 @@ theorem pipeline_partial_under_O (t : Printer.PrecTable) (sp : Token.Spacing) (o
       · rfl
       · exact runO_trav (dropT isLiteralStmt) (dropT_sound _ isLiteral_noop) (dropT_table (o := true) _ isLiteral_noop) n m
     · rfl
-  let m2 := if o.removePass then travModule removePass m1 else m1
-  have e2 : runO n m2 = runO n m := by
-    show runO n (if o.removePass then travModule removePass m1 else m1) = runO n m
+  let m1c := if o.combineImports then travModule combineImports m1 else m1
+  have e1c : runO n m1c = runO n m := by
+    show runO n (if o.combineImports then travModule combineImports m1 else m1) = runO n m
     split
-    · rw [show runO n (travModule removePass m1) = runO n m1 from
-        runO_trav (dropT isPass) (dropT_sound isPass isPass_noop) (dropT_table (o := true) isPass isPass_noop) n m1, e1]
+    · rw [combine_imports_preserves_under_O, e1]
     · exact e1
+  let m2 := if o.removePass then travModule removePass m1c else m1c
+  have e2 : runO n m2 = runO n m := by
+    show runO n (if o.removePass then travModule removePass m1c else m1c) = runO n m
+    split
+    · rw [show runO n (travModule removePass m1c) = runO n m1c from
+        runO_trav (dropT isPass) (dropT_sound isPass isPass_noop) (dropT_table (o := true) isPass isPass_noop) n m1c, e1c]
+    · exact e1c
   let m3 := if o.removeObjectBase then travModule removeObject m2 else m2
   have e3 : runO n m3 = runO n m := by
     show runO n (if o.removeObjectBase then travModule removeObject m2 else m2) = runO n m
@@ -193,7 +216,7 @@ theorem pipeline_partial_under_O (t : Printer.PrecTable) (sp : Token.Spacing) (o
     · rw [show runO n (removePosargs m8) = runO n m8 from runO_map posMap pos_exprOK n m8 (by rw [e8]; exact hcore), e8]
     · exact e8
   have hT : transformM t sp orc el o m = (if o.convertPosargs then removePosargs m8 else m8) := by
-    simp only [transformM, h1, h2, Bool.false_eq_true, if_false, m8, m7, m6, m5, m4, m3, m2, m1]
+    simp only [transformM, h2, Bool.false_eq_true, if_false, m8, m7, m6, m5, m4, m3, m2, m1c, m1]
   rw [hT]
   exact e9
 
